@@ -18,7 +18,13 @@ import json, os, time
 from lib import common
 
 PROPS = ("Props/C02_vector.v", "Props/C09_vector.v", "Props/C14_vector.v")
-EXTRA_TARGETS = ["Analysis/Vector.vo", "Gen/GenVecKernels.vo", "Proofs/VecKernelProofs.vo", "Proofs/VecKernelProofsBN.vo"]
+EXTRA_TARGETS = {   # only what the part needs: e.g. a broken batch-norm or nll-backward proof must not take the C09 part down
+    "Props/C02_vector.v": ["Analysis/Vector.vo", "Gen/GenVecKernels.vo", "Proofs/VecKernelProofs.vo", "Proofs/VecKernelProofsLossFwd.vo",
+                           "Proofs/VecKernelProofsLossBwd.vo", "Proofs/VecKernelProofsBN.vo"],
+    "Props/C09_vector.v": ["Analysis/Vector.vo", "Gen/GenVecKernels.vo", "Proofs/VecKernelProofs.vo", "Proofs/VecKernelProofsLossFwd.vo"],
+    "Props/C14_vector.v": ["Analysis/Vector.vo", "Gen/GenVecKernels.vo", "Proofs/VecKernelProofs.vo", "Proofs/VecKernelProofsLossFwd.vo",
+                           "Proofs/VecKernelProofsLossBwd.vo"],
+}
 
 _done = {}     # per process: translator + self-check are run once even if several parts are requested
 
@@ -174,7 +180,7 @@ def run_part(ctx, props_file):
     """(a) translator, (b) self-check, (c) build of props_file, (d) oracle for that part.  Returns a small summary dict."""
     assert props_file in PROPS, props_file
     ir, w = _translate_and_selfcheck(ctx)
-    ok, fails = ctx.build_props(props_rel=props_file, extra_targets=EXTRA_TARGETS, timeout=900)
+    ok, fails = ctx.build_props(props_rel=props_file, extra_targets=EXTRA_TARGETS[props_file], timeout=900)
     if ok:
         ctx.assumption_axioms.update(_axioms_of_log(os.path.join(ctx.workdir, "build.log")))
     from checks import kv_oracle
